@@ -13,12 +13,16 @@
 EXTENDS Integers, Sequences, FiniteSets, TLC, Json
 
 CONSTANTS Levels, Solvers, MaxSteps, Emit
-VARIABLES solver, load, H, d, steps, act
-vars == <<solver, load, H, d, steps, act>>
+VARIABLES solver, load, H, d, steps, act,
+          query,    \* "none" | "between": results (driving energy, damage, in both forms) are READ between Solve and SaveIter of every step
+          elem      \* element type of the mesh: QUAD4 has as many points for the history as for the stiffness, TRI3 has more
+vars == <<solver, load, H, d, steps, act, query, elem>>
 
 Max(a, b) == IF a > b THEN a ELSE b
-Init == solver \in Solvers /\ load = 0 /\ H = 0 /\ d = 0 /\ steps = <<>> /\ act = "Init"
+Init == solver \in Solvers /\ query \in {"none", "between"} /\ elem \in {"QUAD4", "TRI3"} /\ load = 0 /\ H = 0 /\ d = 0 /\ steps = <<>> /\ act = "Init"
 
+(* a read of results is not an action: it changes neither H nor d, whatever the place it is made from (the step below is the *)
+(* same with and without it)                                                                                                 *)
 (* one load step: the driving energy follows the load unless the history keeps its maximum; the damage follows the *)
 (* driving energy unless the solver keeps it from decreasing                                                        *)
 Step(l) ==
@@ -30,12 +34,12 @@ Step(l) ==
            /\ d' = dnew
            /\ steps' = Append(steps, [load |-> l, H |-> drive, d |-> dnew])
     /\ act' = "Step"
-    /\ UNCHANGED solver
+    /\ UNCHANGED <<solver, query, elem>>
 Next == \E l \in Levels : Step(l)
 Spec == Init /\ [][Next]_vars
 
 HistoryMonotone == [][solver = "History" => H' >= H]_vars
 DamageMonotone  == [][d' >= d]_vars
 NoLoadNoDamage  == (\A i \in 1..Len(steps) : steps[i].load = 0) => d = 0
-EmitOK == (Emit /\ Len(steps) = MaxSteps) => PrintT(<<"PROGRAM", ToJson([solver |-> solver, loads |-> [i \in 1..Len(steps) |-> steps[i].load]])>>)
+EmitOK == (Emit /\ Len(steps) = MaxSteps) => PrintT(<<"PROGRAM", ToJson([solver |-> solver, query |-> query, elem |-> elem, loads |-> [i \in 1..Len(steps) |-> steps[i].load]])>>)
 =============================================================================
